@@ -74,6 +74,12 @@
 // turns a function into a DECIDER: every return statement must match exactly one regexp (on its canonical text) and
 // yields the Lean value given for it ("{argK}" = the translated K-th argument of the returned call); the named results
 // are then not computed.
+//
+// Conditionals (added): on a header of kind Hdr the builtin `delete(h, k)` is `del h k` (the map itself: NO
+// canonicalisation) and the statement `h.Set(k, v)` is `set h (canonKey k) v`; `strconv.FormatInt(x, 10)` =
+// Rv.intToDec x. Spec mode `hdrblock`/`hdrcount`/`hdrexpr`: `hdrcount` consecutive statements starting at the first
+// `if` whose condition matches, translated as a function on the header the Go expression `hdrexpr` denotes (first
+// binder); the statements must fall through (a return / break / go / defer inside them is refused).
 package main
 
 import (
@@ -117,10 +123,13 @@ type Spec struct {
 	Imports   []string          `json:"imports"`   // extra Lean imports of the generated module
 	StrMode   bool              `json:"str"`       // string literals and string locals of this function are Rv.Str (one Char per byte), not Lean String
 	LeafKinds map[string]string `json:"leafkinds"` // canonical Go expression of a leaf => its kind ("Str", "Int", "Bool", "Hdr", "Strs")
-	Returns   map[string]string `json:"returns"`   // regexp on the CANONICAL text of a return statement => the Lean value it stands for (a decider: WHICH exit is taken); "{argK}" = the translated K-th argument of the returned call
-	HdrParam  string            `json:"hdrparam"`  // a Go parameter of type http.Header that the function mutates: a local of kind Hdr initialised from its binder, and the result of the translated function
-	Until     string            `json:"until"`     // translate the body up to and including the first top-level assignment to this variable, and return it
-	MapOrder  map[string]string `json:"maporder"`  // Go map variable ranged over => name of the Lean binder (List (K × V)) giving the iteration order
+	HdrBlock  string            `json:"hdrblock"`  // translate `hdrcount` consecutive statements starting at the first `if` whose printed condition matches this regexp, as a function on the header named by `hdrexpr`
+	HdrCount  int               `json:"hdrcount"`
+	HdrExpr   string            `json:"hdrexpr"`  // the Go expression that is the http.Header those statements mutate (e.g. "up.Header"); its binder is the FIRST binder of the spec
+	Returns   map[string]string `json:"returns"`  // regexp on the CANONICAL text of a return statement => the Lean value it stands for (a decider: WHICH exit is taken); "{argK}" = the translated K-th argument of the returned call
+	HdrParam  string            `json:"hdrparam"` // a Go parameter of type http.Header that the function mutates: a local of kind Hdr initialised from its binder, and the result of the translated function
+	Until     string            `json:"until"`    // translate the body up to and including the first top-level assignment to this variable, and return it
+	MapOrder  map[string]string `json:"maporder"` // Go map variable ranged over => name of the Lean binder (List (K × V)) giving the iteration order
 }
 
 var fset = token.NewFileSet()
@@ -353,7 +362,8 @@ type tr struct {
 	iota         *int                // value of `iota` while a constant's expression is translated
 	gotypes      map[string]ast.Expr // Go type of a parameter / local when it is known syntactically
 	scopes       map[uintptr]scopeInfo
-	blockMode    bool // a single statement is translated (spec.block): see Spec.Block
+	blockMode    bool   // a single statement is translated (spec.block): see Spec.Block
+	hdrAlias     string // the local standing for spec.hdrexpr while a hdrblock is translated
 }
 
 // kinds of values the string subset knows about
@@ -1364,6 +1374,8 @@ func (t *tr) kindOf(e ast.Expr) string {
 			return kStrSeq
 		case t.spec.StrMode && fn == "strings.Join":
 			return kStr
+		case t.spec.StrMode && fn == "strconv.FormatInt":
+			return kStr
 		case t.spec.StrMode && fn == "make" && len(x.Args) >= 2 && show(x.Args[0]) == "[]string":
 			return kStrs
 		case t.spec.StrMode && fn == "append" && len(x.Args) >= 1 && t.kindOf(x.Args[0]) == kStrs:
@@ -1609,6 +1621,18 @@ func (t *tr) call(x *ast.CallExpr) comp {
 			}
 			c.val = "(" + c.val + " ++ [" + strings.Join(els, ", ") + "])"
 			return c
+		}
+		// strconv.FormatInt(x, 10): the decimal text of an integer (TRUSTED meaning: Rv.intToDec, the model's port)
+		if fn == "strconv.FormatInt" && t.importsAs("strconv", "strconv") && !t.locals["strconv"] && len(x.Args) == 2 {
+			if show(x.Args[1]) != "10" {
+				fail("%s (%s): `%s`: only base 10 is supported", t.spec.Lean, t.spec.File, show(x))
+			}
+			if t.kindOf(x.Args[0]) != kInt {
+				fail("%s (%s): `%s`: the argument is not known to be an integer", t.spec.Lean, t.spec.File, show(x))
+			}
+			a := t.expr(x.Args[0])
+			a.val = "(Rv.intToDec " + a.val + ")"
+			return a
 		}
 		if fn == "strings.Join" && t.importsAs("strings", "strings") && !t.locals["strings"] && len(x.Args) == 2 {
 			if t.kindOf(x.Args[0]) != kStrs {
@@ -2014,6 +2038,44 @@ func (t *tr) stmts(list []ast.Stmt) string {
 	case *ast.RangeStmt:
 		return t.rangeLoop(x, rest)
 	case *ast.ExprStmt:
+		if call, ok := x.X.(*ast.CallExpr); ok {
+			strArg := func(e ast.Expr) comp {
+				if _, isLit := e.(*ast.BasicLit); !isLit && t.kindOf(e) != kStr {
+					fail("%s (%s): `%s`: `%s` is not known to be a string of kind Str", t.spec.Lean, t.spec.File, show(x), show(e))
+				}
+				return t.strOperand(e)
+			}
+			// the header variable a call refers to: a local of kind Hdr, or the expression the spec declares (hdrexpr)
+			hdrVar := func(e ast.Expr) string {
+				if id, ok := e.(*ast.Ident); ok && t.locals[id.Name] && t.kinds[id.Name] == kHdr {
+					return id.Name
+				}
+				if t.hdrAlias != "" && t.spec.HdrExpr != "" && show(e) == t.spec.HdrExpr {
+					return t.hdrAlias
+				}
+				return ""
+			}
+			// delete(h, k): the builtin on the map itself — NO canonicalisation of k
+			if fn, ok := call.Fun.(*ast.Ident); ok && fn.Name == "delete" && len(call.Args) == 2 && !t.locals["delete"] && t.pkg.funcs["delete"] == nil {
+				if hv := hdrVar(call.Args[0]); hv != "" {
+					k := strArg(call.Args[1])
+					t.used[hv] = true
+					return k.andThen(func(kv string) string {
+						return "let " + mangle(hv) + " := Rv.Headers.del " + mangle(hv) + " " + kv + "\n  " + t.stmts(rest)
+					})
+				}
+			}
+			// h.Set(k, v): http.Header canonicalises k and replaces all values of that name by v
+			if sel, ok := call.Fun.(*ast.SelectorExpr); ok && sel.Sel.Name == "Set" && len(call.Args) == 2 {
+				if hv := hdrVar(sel.X); hv != "" {
+					c := join2(strArg(call.Args[0]), strArg(call.Args[1]), func(p, q string) string {
+						return "Rv.Headers.set " + mangle(hv) + " (Rv.Headers.canonKey " + p + ") " + q
+					})
+					t.used[hv] = true
+					return c.andThen(func(v string) string { return "let " + mangle(hv) + " := " + v + "\n  " + t.stmts(rest) })
+				}
+			}
+		}
 		if call, ok := x.X.(*ast.CallExpr); ok && len(call.Args) == 1 {
 			if sel, ok := call.Fun.(*ast.SelectorExpr); ok && sel.Sel.Name == "Del" {
 				if id, ok := sel.X.(*ast.Ident); ok && t.locals[id.Name] && t.kinds[id.Name] == kHdr {
@@ -2464,8 +2526,13 @@ func assignedIn(list []ast.Stmt) (assigned map[string]bool, declared map[string]
 					assigned[id.Name] = true
 				}
 			case *ast.ExprStmt:
-				// h.Del(..) / h.Set(..) / h.Add(..) as a statement changes the variable h
+				// h.Del(..) / h.Set(..) / h.Add(..) / delete(h, ..) as a statement changes the variable h
 				if call, ok := a.X.(*ast.CallExpr); ok {
+					if fn, ok := call.Fun.(*ast.Ident); ok && fn.Name == "delete" && len(call.Args) == 2 {
+						if id, ok := call.Args[0].(*ast.Ident); ok {
+							assigned[id.Name] = true
+						}
+					}
 					if sel, ok := call.Fun.(*ast.SelectorExpr); ok && (sel.Sel.Name == "Del" || sel.Sel.Name == "Set" || sel.Sel.Name == "Add") {
 						if id, ok := sel.X.(*ast.Ident); ok {
 							assigned[id.Name] = true
@@ -3127,7 +3194,7 @@ func translate(g *genOut, pkg *pkgInfo, sp *Spec, key string) {
 			paramTypes[n.Name] = f.Type
 		}
 	}
-	if !sp.FuncLit && sp.Expr == "" && sp.Cond == "" && sp.Block == "" {
+	if !sp.FuncLit && sp.Expr == "" && sp.Cond == "" && sp.Block == "" && sp.HdrBlock == "" {
 		// positional correspondence: receiver (if any) then the Go parameters <=> the first binders of the spec
 		bn := []string{}
 		for _, b := range sp.Binders {
@@ -3207,6 +3274,44 @@ func translate(g *genOut, pkg *pkgInfo, sp *Spec, key string) {
 			fail("%s: no assignment to `%s` in %s", sp.Lean, sp.Expr, key)
 		}
 		bodyTerm = t.expr(rhs).render()
+	case sp.HdrBlock != "":
+		re := regexp.MustCompile(sp.HdrBlock)
+		var list []ast.Stmt
+		ast.Inspect(body, func(n ast.Node) bool {
+			if b, ok := n.(*ast.BlockStmt); ok && list == nil {
+				for i, st := range b.List {
+					if is, ok := st.(*ast.IfStmt); ok && re.MatchString(show(is.Cond)) {
+						if sp.HdrCount < 1 || i+sp.HdrCount > len(b.List) {
+							fail("%s: hdrcount %d statements from the matched `if` do not fit its block", sp.Lean, sp.HdrCount)
+						}
+						list = append([]ast.Stmt{}, b.List[i:i+sp.HdrCount]...)
+						break
+					}
+				}
+			}
+			return list == nil
+		})
+		if list == nil {
+			fail("%s: no `if` statement whose condition matches %s in %s", sp.Lean, sp.HdrBlock, key)
+		}
+		if sp.HdrExpr == "" || len(sp.Binders) == 0 || !strings.Contains(sp.Binders[0], "Hdr") || len(t.pseudo) != 0 {
+			fail("%s: a hdrblock spec needs hdrexpr and a first binder of type Rv.Headers.Hdr (and no pseudo results)", sp.Lean)
+		}
+		for _, st := range list {
+			// the translated statements may only fall through: a return / break / goto inside them is refused
+			ast.Inspect(st, func(n ast.Node) bool {
+				switch n.(type) {
+				case *ast.ReturnStmt, *ast.BranchStmt, *ast.GoStmt, *ast.DeferStmt:
+					fail("%s: the statements of a hdrblock must fall through (found `%s`)", sp.Lean, show(n))
+				}
+				return true
+			})
+		}
+		hb := strings.TrimSpace(strings.SplitN(strings.TrimPrefix(sp.Binders[0], "("), ":", 2)[0])
+		t.hdrAlias = "hdr_"
+		t.declareK(t.hdrAlias, kHdr)
+		t.pseudo = append(t.pseudo, t.hdrAlias)
+		bodyTerm = "let hdr_ := " + hb + "\n  " + t.stmts(list)
 	case sp.Block != "":
 		var blk *ast.IfStmt
 		re := regexp.MustCompile(sp.Block)
@@ -3364,7 +3469,7 @@ func translateGroup(grp string, specs []*Spec) (text string, refused string) {
 			if s.Recv != "" {
 				k = s.Recv + "." + s.Func
 			}
-			if s.Expr != "" || s.Cond != "" || s.Block != "" {
+			if s.Expr != "" || s.Cond != "" || s.Block != "" || s.HdrBlock != "" {
 				base := k
 				k = k + "#" + s.Lean
 				pkg.funcs[k] = pkg.funcs[base]
